@@ -482,6 +482,43 @@ def call_form(fn, name, form, **kw):
     return fn(*[kw[k] for k in order[:cut]], **{k: v for k, v in kw.items() if k not in order[:cut]})
 
 
+class SeamBypassed(Exception):
+    """The implementation reached something the harness observes (a random generator, an estimator, a test) by a route the
+    instrumentation does not see. Nothing can be concluded about the property from such a run: it is a broken tie, never a failing input."""
+
+
+def alias_patches(module, replacements):
+    """Other names under which `module` holds the observed objects (`from numpy.random import default_rng`, `import numpy.random as npr`,
+    ...): returns {attribute name: replacement} for every module attribute that IS one of the originals (identity)."""
+    out = {}
+    for name, val in list(vars(module).items()):
+        for orig, repl in replacements:
+            if val is orig:
+                out[name] = repl
+    return out
+
+
+@contextlib.contextmanager
+def patched_everywhere(pairs, prefix="causationentropy"):
+    """Replace every attribute of every loaded module of the package that IS one of the original objects (identity), whatever name it is
+    bound to and whichever module it was imported into (`from m import f`, `import m as alias; alias.f`). Restores on exit."""
+    import sys
+    done = []
+    for mname, mod in list(sys.modules.items()):
+        if mod is None or not (mname == prefix or mname.startswith(prefix + ".")) or ".tests" in mname:
+            continue
+        for name, val in list(vars(mod).items()):
+            for orig, repl in pairs:
+                if val is orig and repl is not None:
+                    done.append((mod, name, val))
+                    setattr(mod, name, repl)
+    try:
+        yield
+    finally:
+        for mod, name, val in done:
+            setattr(mod, name, val)
+
+
 class EntryPoints:
     """The public ways of reaching one function (defining module and every package-level re-export), used in turn:
     a wrapper put around a re-export must behave like the function it re-exports."""
